@@ -59,7 +59,7 @@ def _sanitize_attrs_nc(dt: xr.DataTree) -> xr.DataTree:
 
 
 def _should_desanitize(attr: Any) -> bool:
-    if isinstance(attr, str):
+    if isinstance(attr, str) and len(attr) > 0:
         if (
             (attr[0] == "{" and attr[-1] == "}")
             or (attr[0] == "[" and attr[-1] == "]")
